@@ -3,6 +3,7 @@ package hist
 import (
 	"context"
 	"fmt"
+	"strings"
 	"sync"
 	"sync/atomic"
 	"testing"
@@ -20,7 +21,7 @@ func TestC03(t *testing.T) {
 	r.Rule("seeded random histories with debug logging on; the AEAD/KMS/metastore/secret-factory monitors feed an online checker that (a) keeps the set of (key,nonce) pairs and of nonces duplicate-free, (b) derives key roles from provenance (SK = seen by the KMS, IK = wrapped/unwrapped under an SK, DRK = CreateRandom secret of the current call) and types every AEAD.Encrypt against payload<DRK<IK(partition)<SK, (c) scans every data row record, stored key record, KMS output and debug log line for every known plaintext key and payload (raw, base64, hex, decimal and Go-syntax renderings); metastore reads, KMS calls and secure-memory allocations fail transiently in the histories, and a scripted matrix fails the k-th allocation / KMS call of the first operation of a process that loads persisted keys, then keeps encrypting; and the test binary is re-executed as several consecutive process lives over the same persisted keys, whose (key, nonce) pairs must be pairwise distinct across lives; the gRPC sidecar's always-on log, captured while requests fail on injected faults, is scanned for payload and key bytes in the same renderings plus %q and protobuf-text escapes. A history is distinct+non-trivial when it rotated a key or saw a revocation.")
 	r.Assume("a repeated 96-bit random nonce is treated as a violation (probability < 1e-15 over the events observed)", "StaticKMS's internal use of the AEAD is not part of the SDK's envelope and is not monitored")
 	concurrentNonces(t, r)
-	runMany(t, r, ev.Pick(40, 120), Params{Oracles: OC03, Steps: ev.Pick(300, 1200), MaxFacts: 3, ClockBias: 6, RevokeBias: 4, Debug: true, Parts: []string{"p0", "p1", "P0", "user_42", "üñí", "ÜÑÍ"}, FaultPct: 40}, 3)
+	runMany(t, r, ev.Pick(40, 120), Params{Oracles: OC03, Steps: ev.Pick(300, 1200), MaxFacts: 3, ClockBias: 6, RevokeBias: 4, Debug: true, Parts: []string{"p0", "p1", "P0", "user_42", "üñí", "ÜÑÍ", strings.Repeat("L", 251) + "-alice", strings.Repeat("L", 251) + "-bob"}, FaultPct: 40}, 3)
 	matrixC03Faults(t, r)
 	restartNonces(t, r)
 	sidecarLogs(t, r)
